@@ -1,255 +1,277 @@
-"""C04 -- deferred expressions evaluate to what Python computes on the operand values."""
+"""C04 -- deferred expressions evaluate to what Python computes on the operand values.
+
+Every obligation compares *symbolic terms* (xsa.sym) of the normalised methods: what a dunder returns, what a node
+class's _get_value computes from which fields, what a constructor stores where.  Temporaries, helper functions,
+flipped conditionals and conditional expressions do not change the terms.
+"""
 from __future__ import annotations
 
 import ast
 
 from .. import astutil as A
 from .. import pydata as PD
+from .. import sym as S
 from ..core import AnalysisError, Collector
-from ..refsmodel import RefClass, ref_classes, _local_alias, resolve_local, is_mk_value
-from .common import FnCtx, fnctx, is_method_call, is_self_call
+from ..refterms import BASEREF, RefModel, in_handler, is_ref_test, mk, unmk
+from .common import sctx
 
 PROP = "C04"
-FLOORS = {"C04.R1": 32, "C04.R2": 3, "C04.R3": 8, "C04.R4": 13, "C04.R5": 22, "C04.R6": 8, "C04.R7": 3}
+FLOORS = {"C04.R1": 100, "C04.R2": 9, "C04.R3": 20, "C04.R4": 14, "C04.R5": 22, "C04.R6": 10, "C04.R7": 5}
 META = {
     "explanation": "Structural induction: for every operator dunder of BaseRef (Python data-model table) the node class built, the "
                    "operand order, the operator applied by that class's _get_value to the _mk_value of its operand fields and the "
                    "printed operator token are the ones Python prescribes; likewise unary operators, the builtin dunders, the in-place "
-                   "table of MutableRef, the leaves (item/attribute access, calls) and _mk_value itself; the only handlers in any "
-                   "_get_value are the three documented ZeroDivisionError->NaN guards.",
+                   "table of MutableRef (and the lookup of the current expression it relies on), the leaves (item/attribute access, "
+                   "calls) and _mk_value itself; the only handlers in any _get_value are the three documented ZeroDivisionError->NaN "
+                   "guards. Compared as symbolic terms after helper inlining.",
     "decides": "the homomorphism node-by-node (operator identity, operand order, evaluation of every operand slot), exhaustively over "
                "the operator table",
     "not_decided": "per-type numeric semantics (they are Python's own by the induction); numpy left-operand dispatch (excluded by the property)",
     "assumptions": ["Python's data model (xsa/pydata.py)"],
 }
 
-
-def _ret_expr(fn):
-    body = A.strip_docstring(fn.body)
-    if len(body) == 1 and isinstance(body[0], ast.Return):
-        return body[0].value
-    return None
+_MODELS = {}
 
 
-def _get_value_op(rc: RefClass):
-    """('bin', opclass, left_field, right_field) / ('un', opclass, field) of rc._get_value, or None"""
-    r = rc.method("_get_value")
-    if r is None:
-        return None
-    fn = r[1]
-    alias = _local_alias(fn)
-    rets = [n for n in A.walk(fn) if isinstance(n, ast.Return) and n.value is not None]
+def model(col) -> RefModel:
+    key = id(col.repo)
+    if key not in _MODELS:
+        _MODELS.clear()
+        _MODELS[key] = RefModel(col.repo)
+    return _MODELS[key]
 
-    def field_of(e):
-        e = resolve_local(e, alias)
-        if is_mk_value(e):
-            return A.self_attr(resolve_local(e.args[0], alias))
-        return None
-    # the operator return is the one not inside an except handler
-    in_handler = set()
-    for t in (n for n in A.walk(fn) if isinstance(n, ast.Try)):
-        for h in t.handlers:
-            for n in A.walk(h):
-                in_handler.add(id(n))
-    main = [r_ for r_ in rets if id(r_) not in in_handler]
-    if len(main) != 1:
-        return None
-    v = resolve_local(main[0].value, alias)
-    if isinstance(v, ast.BinOp):
-        return ("bin", type(v.op), field_of(v.left), field_of(v.right))
-    if isinstance(v, ast.Compare) and len(v.ops) == 1:
-        return ("bin", type(v.ops[0]), field_of(v.left), field_of(v.comparators[0]))
-    if isinstance(v, ast.UnaryOp):
-        return ("un", type(v.op), field_of(v.operand))
-    return None
+
+def _main_returns(rm: RefModel, cname: str, meth: str):
+    return [(ev, v, c) for ev, v, c, h in rm.returns(cname, meth) if not h]
+
+
+def value_term_ok(rm: RefModel, cname: str, kind: str, tok: str, fields):
+    """every non-handler return of cname._get_value is `_mk_value(f1) tok _mk_value(f2)` (operands in this order)"""
+    rets = _main_returns(rm, cname, "_get_value")
+    if not rets:
+        return False, "no return"
+    for ev, v, c in rets:
+        for a in S.alts(v):
+            if kind == "bin":
+                if not (a[:1] in (("op",), ("cmp",)) and a[1] == tok and unmk(a[2]) == S.sattr(fields[0]) and unmk(a[3]) == S.sattr(fields[1])):
+                    return False, f"computes {S.show(a)}"
+            else:
+                if not (a[:1] == ("uop",) and a[1] == tok and unmk(a[2]) == S.sattr(fields[0])):
+                    return False, f"computes {S.show(a)}"
+    return True, S.show(rets[0][1])
 
 
 def _binary(col, rule="C04.R1"):
     repo = col.repo
+    rm = model(col)
     base = repo.cls("BaseRef")
-    classes = {rc.name: rc for rc in ref_classes(repo)}
-    tokens = {}
     table = []
     for fwd, (op, tok, refl, _) in PD.BINARY.items():
-        table.append((fwd, op, tok, "fwd"))
-        table.append((refl, op, tok, "refl"))
+        table.append((fwd, tok, "fwd"))
+        table.append((refl, tok, "refl"))
     for nm, (op, tok) in PD.COMPARE.items():
-        table.append((nm, op, tok, "fwd"))
+        table.append((nm, tok, "fwd"))
     for nm, (op, tok) in PD.EQUALITY_HELPERS.items():
-        table.append((nm, op, tok, "fwd"))
-    for dunder, op, tok, mode in table:
+        table.append((nm, tok, "fwd"))
+    for dunder, tok, mode in table:
         q = f"BaseRef.{dunder}"
         if dunder not in base.methods:
             col.fail(rule, f"{q}#defined", base.module.loc(base.node),
                      f"BaseRef defines {dunder} (otherwise `{tok}` with a ref on that side raises or falls back)", "missing")
             continue
-        fn = base.methods[dunder]
-        ps = A.params(fn)
-        v = _ret_expr(fn)
-        if not (isinstance(v, ast.Call) and isinstance(v.func, ast.Name) and len(ps) == 2):
-            col.fail(rule, f"{q}#builds-node", base.module.loc(fn), f"{dunder} returns a node class applied to its two operands", A.src(v))
+        sx = rm.sx("BaseRef", dunder)
+        rets = sx.of_kind("return")
+        if not rets:
+            col.fail(rule, f"{q}#builds-node", sx.loc(sx.fn), f"{dunder} returns a node class applied to its two operands", "no return")
             continue
-        k = v.func.id
-        want = ["self", ps[1]] if mode == "fwd" else [ps[1], "self"]
-        got = [A.dotted(a) for a in v.args]
-        col.add(rule, f"{q}#operand-order", got == want and not v.keywords, base.module.loc(fn),
-                f"{dunder} builds its node with the operands in Python's order ({'self OP other' if mode == 'fwd' else 'other OP self'})",
-                A.src(v))
-        rc = classes.get(k)
-        if rc is None:
-            col.fail(rule, f"{q}#node-class", base.module.loc(fn), "the node class exists", k)
-            continue
-        gv = _get_value_op(rc)
-        ok = gv is not None and gv[0] == "bin" and gv[1] is op and gv[2] == "_lhs" and gv[3] == "_rhs"
-        col.add(rule, f"{q}#operator:{k}", ok, rc.c.module.loc(rc.method("_get_value")[1]),
-                f"the node built by {dunder} evaluates `_mk_value(_lhs) {tok} _mk_value(_rhs)`",
-                f"{k}._get_value computes {gv}")
-        ts = repo.class_const(rc.c, "_op_str")
-        col.add(rule, f"{q}#token:{k}", A.const(ts) == tok, rc.c.module.loc(rc.c.node),
-                f"{k} prints the operator as `{tok}`", f"_op_str = {A.src(ts)}")
-        tokens.setdefault(k, tok)
-        # lhs/rhs fields come from the constructor arguments in order
-        pf = rc.param_field()
-        cin = [fn2 for k2, fn2 in rc.cinits() if len(A.params(fn2)) == 3]
-        okc = bool(cin) and [rc.field_of_param(p) for p in A.params(cin[0])[1:]] == ["_lhs", "_rhs"]
-        col.add(rule, f"{q}#ctor-fields:{k}", okc, rc.c.module.loc(rc.c.node),
-                f"{k}(a, b) stores a as _lhs and b as _rhs", str(pf))
-    # one node class per operator, tokens distinct over BinOpExpr subclasses
+        other = sx.P(0)
+        want_args = (S.SELF, other) if mode == "fwd" else (other, S.SELF)
+        ks = set()
+        ok_order, facts = True, ""
+        for r in rets:
+            for a in S.alts(r.value):
+                if not (S.is_call_of(a) and a[1][:1] == ("glob",) and a[1][1] in rm.by_name):
+                    ok_order, facts = False, f"returns {S.show(a)}"
+                    continue
+                ks.add(a[1][1])
+                if a[2] != want_args or a[3]:
+                    ok_order, facts = False, f"returns {S.show(a)}"
+        col.add(rule, f"{q}#operand-order", ok_order, sx.loc(rets[0]),
+                f"{dunder} builds its node with the operands in Python's order ({'self OP other' if mode == 'fwd' else 'other OP self'}) "
+                "on every path", facts or S.show(rets[0].value))
+        col.add(rule, f"{q}#one-node-class", len(ks) == 1, sx.loc(rets[0]),
+                f"{dunder} builds the same node class whatever the operands are", f"{sorted(ks)}")
+        for k in sorted(ks):
+            okv, fv = value_term_ok(rm, k, "bin", tok, ("_lhs", "_rhs"))
+            gsx = rm.sx(k, "_get_value")
+            col.add(rule, f"{q}#operator:{k}", okv, gsx.loc(gsx.fn) if gsx else sx.loc(sx.fn),
+                    f"the node built by {dunder} evaluates `_mk_value(_lhs) {tok} _mk_value(_rhs)`", f"{k}._get_value: {fv}")
+            ts = repo.class_const(rm.cls(k), "_op_str")
+            col.add(rule, f"{q}#token:{k}", A.const(ts) == tok, rm.cls(k).module.loc(rm.cls(k).node),
+                    f"{k} prints the operator as `{tok}`", f"_op_str = {A.src(ts)}")
+            pf = {}
+            for m in rm.param_fields(k).values():
+                pf.update(m)
+            col.add(rule, f"{q}#ctor-fields:{k}", pf.get(0) == "_lhs" and pf.get(1) == "_rhs", rm.cls(k).module.loc(rm.cls(k).node),
+                    f"{k}(a, b) stores a as _lhs and b as _rhs", str(pf))
     seen = {}
-    for rc in classes.values():
-        if repo.is_subclass(rc.c, "BinOpExpr") and rc.name != "BinOpExpr":
-            t = A.const(repo.class_const(rc.c, "_op_str"))
-            seen.setdefault(t, []).append(rc.name)
+    for c in rm.classes:
+        if repo.is_subclass(c, "BinOpExpr") and c.name != "BinOpExpr":
+            t = A.const(repo.class_const(c, "_op_str"))
+            seen.setdefault(t, []).append(c.name)
     dup = {t: ks for t, ks in seen.items() if len(ks) > 1}
     col.add(rule, "BinOpExpr#distinct-tokens", not dup, base.module.rel, "binary node classes print pairwise distinct operator tokens", str(dup))
     for nm in PD.NON_PROTOCOL:
         if nm in base.methods:
-            v = _ret_expr(base.methods[nm])
-            if isinstance(v, ast.Call) and len(v.args) != 2:
-                col.add(rule, f"BaseRef.{nm}#non-protocol", False, base.module.loc(base.methods[nm]),
-                        f"{nm} is not a Python protocol name (never called by the interpreter); cross-reference only", A.src(v), note=True)
+            sx = rm.sx("BaseRef", nm)
+            for r in sx.of_kind("return"):
+                if S.is_call_of(r.value) and len(r.value[2]) != 2:
+                    col.add(rule, f"BaseRef.{nm}#non-protocol", False, sx.loc(r),
+                            f"{nm} is not a Python protocol name (never called by the interpreter); cross-reference only",
+                            S.show(r.value), note=True)
 
 
 def _unary(col, rule="C04.R2"):
     repo = col.repo
+    rm = model(col)
     base = repo.cls("BaseRef")
-    classes = {rc.name: rc for rc in ref_classes(repo)}
     for dunder, (op, tok) in PD.UNARY.items():
         q = f"BaseRef.{dunder}"
         if dunder not in base.methods:
             col.fail(rule, f"{q}#defined", base.module.loc(base.node), f"BaseRef defines {dunder}", "missing")
             continue
-        fn = base.methods[dunder]
-        v = _ret_expr(fn)
-        ok = isinstance(v, ast.Call) and isinstance(v.func, ast.Name) and [A.dotted(a) for a in v.args] == ["self"]
-        col.add(rule, f"{q}#builds-node", ok, base.module.loc(fn), f"{dunder} builds a unary node over self", A.src(v))
-        if not ok:
-            continue
-        rc = classes.get(v.func.id)
-        gv = _get_value_op(rc) if rc else None
-        col.add(rule, f"{q}#operator:{v.func.id}", gv is not None and gv[0] == "un" and gv[1] is op and gv[2] == "_arg",
-                base.module.loc(fn), f"the node evaluates `{tok}_mk_value(_arg)`", str(gv))
-        ts = repo.class_const(rc.c, "_op_str") if rc else None
-        col.add(rule, f"{q}#token:{v.func.id}", A.const(ts) == tok, base.module.loc(fn), f"prints `{tok}`", A.src(ts))
+        sx = rm.sx("BaseRef", dunder)
+        rets = sx.of_kind("return")
+        ks = set()
+        ok = bool(rets)
+        for r in rets:
+            for a in S.alts(r.value):
+                if S.is_call_of(a) and a[1][:1] == ("glob",) and a[1][1] in rm.by_name and a[2] == (S.SELF,) and not a[3]:
+                    ks.add(a[1][1])
+                else:
+                    ok = False
+        col.add(rule, f"{q}#builds-node", ok and len(ks) == 1, sx.loc(sx.fn), f"{dunder} builds a unary node over self",
+                S.show(rets[0].value) if rets else "")
+        for k in sorted(ks):
+            okv, fv = value_term_ok(rm, k, "un", tok, ("_arg",))
+            col.add(rule, f"{q}#operator:{k}", okv, sx.loc(sx.fn), f"the node evaluates `{tok}_mk_value(_arg)`", fv)
+            ts = repo.class_const(rm.cls(k), "_op_str")
+            col.add(rule, f"{q}#token:{k}", A.const(ts) == tok, sx.loc(sx.fn), f"prints `{tok}`", A.src(ts))
 
 
-def _resolve_callable(m, e) -> str:
-    d = A.dotted(e)
-    return d or A.src(e)
+def _glob_path(t):
+    """dotted name of a term made of globals and attributes"""
+    parts = []
+    while t[:1] == ("attr",):
+        parts.append(t[2])
+        t = t[1]
+    if t[:1] == ("glob",):
+        parts.append(t[1])
+        return ".".join(reversed(parts))
+    return None
 
 
 def _builtins(col, rule="C04.R3"):
     repo = col.repo
+    rm = model(col)
     base = repo.cls("BaseRef")
     for dunder, (target, extra, defaults) in PD.BUILTINS.items():
         q = f"BaseRef.{dunder}"
         if dunder not in base.methods:
             col.fail(rule, f"{q}#defined", base.module.loc(base.node), f"BaseRef defines {dunder}", "missing")
             continue
+        sx = rm.sx("BaseRef", dunder)
         fn = base.methods[dunder]
-        ps = A.params(fn)[1:]
-        dfl = A.param_defaults(fn)
-        rets = [n for n in A.walk(fn) if isinstance(n, ast.Return)]
-        calls_ok = bool(rets)
-        facts = []
+        ps = [t for t in sx.sym.params.values() if t[:1] == ("param",)]
+        ps.sort(key=lambda t: t[1])
+        rets = sx.of_kind("return")
+        ok, facts = bool(rets), []
         for r in rets:
-            v = r.value
-            if not (isinstance(v, ast.Call) and A.call_name(v) == "BuiltinRef" and len(v.args) >= 2 and A.dotted(v.args[0]) == "self"):
-                calls_ok = False
-                facts.append(A.src(v))
-                continue
-            op = _resolve_callable(base.module, v.args[1])
-            if op != target:
-                calls_ok = False
-                facts.append(f"defers to {op}, expected {target}")
-            passed = []
-            if len(v.args) >= 3:
-                if isinstance(v.args[2], ast.Tuple):
-                    passed = [A.dotted(e) for e in v.args[2].elts]
-                else:
-                    calls_ok = False
-                    facts.append(f"params {A.src(v.args[2])}")
-            if passed != ps and not (len(rets) > 1 and passed == []):
-                calls_ok = False
-                facts.append(f"forwards {passed}, dunder receives {ps}")
-        col.add(rule, f"{q}#defers-to-builtin", calls_ok, base.module.loc(fn),
+            for a in S.alts(r.value):
+                if not (S.is_call_of(a, ("glob", "BuiltinRef")) and len(a[2]) >= 2 and a[2][0] == S.SELF):
+                    ok = False
+                    facts.append(S.show(a))
+                    continue
+                if _glob_path(a[2][1]) != target:
+                    ok = False
+                    facts.append(f"defers to {S.show(a[2][1])}, expected {target}")
+                passed = []
+                third = a[2][2] if len(a[2]) >= 3 else dict(a[3]).get("params")
+                if third is not None:
+                    if third[:1] == ("tuple",):
+                        passed = list(third[1])
+                    else:
+                        ok = False
+                        facts.append(f"params {S.show(third)}")
+                if passed != ps and not (len(rets) > 1 and passed == []):
+                    ok = False
+                    facts.append(f"forwards {[S.show(x) for x in passed]}, dunder receives {[S.show(x) for x in ps]}")
+        col.add(rule, f"{q}#defers-to-builtin", ok, sx.loc(sx.fn),
                 f"{dunder} builds BuiltinRef(self, {target}, <exactly the arguments Python passes>)", "; ".join(facts))
-        # defaults of the dunder's own parameters must be the builtin's defaults
-        okd = len(ps) == len(extra)
-        for p, name in zip(ps, extra):
+        pnames = [t[2] for t in ps]
+        dfl = A.param_defaults(fn)
+        okd = len(pnames) == len(extra)
+        for p, name in zip(pnames, extra):
             if name in defaults:
                 okd = okd and p in dfl and A.const(dfl[p]) == defaults[name] and (defaults[name] is not None or A.is_none(dfl[p]))
             else:
                 okd = okd and p not in dfl
-        col.add(rule, f"{q}#parameter-defaults", okd, base.module.loc(fn),
+        col.add(rule, f"{q}#parameter-defaults", okd, sx.loc(sx.fn),
                 f"{dunder}'s extra parameters and defaults are those of {target} (round's ndigits defaults to None)",
-                f"params {ps} defaults { {k: A.src(v) for k, v in dfl.items()} }")
-        # any test on an extra parameter is an `is None` test (0 is a legitimate value)
+                f"params {pnames} defaults { {k: A.src(v) for k, v in dfl.items()} }")
         bad = []
-        for n in A.walk(fn):
-            tests = []
-            if isinstance(n, (ast.If, ast.IfExp, ast.While)):
-                tests.append(n.test)
-            if isinstance(n, ast.BoolOp):
-                tests += n.values
-            for t in tests:
-                t2 = t.operand if isinstance(t, ast.UnaryOp) and isinstance(t.op, ast.Not) else t
-                if isinstance(t2, ast.Name) and t2.id in ps:
-                    bad.append(A.src(t))
-        col.add(rule, f"{q}#no-truthiness-test-on-argument", not bad, base.module.loc(fn),
+        for n in sx.cfg.nodes.values():
+            if n.kind == "test":
+                t = sx.sym.of(n.ast, n.id)
+                for c in S.conjuncts(S.norm_cond(True, t)) + S.conjuncts(S.norm_cond(False, t)):
+                    if c in ps or (c[:1] == ("uop",) and c[1] == "not" and c[2] in ps):
+                        bad.append(S.show(c))
+        col.add(rule, f"{q}#no-truthiness-test-on-argument", not bad, sx.loc(sx.fn),
                 "an extra argument is never tested by truthiness (0 / False are legitimate values distinct from 'not given')", str(bad))
     # BuiltinRef._get_value applies _op to the evaluated arg and every evaluated param
-    cx = fnctx(repo, "BuiltinRef", "_get_value")
-    alias = _local_alias(cx.fn)
-    rets = [n for n in A.walk(cx.fn) if isinstance(n, ast.Return)]
-    ok = len(rets) == 1
-    facts = ""
-    if ok:
-        v = resolve_local(rets[0].value, alias)
-        ok = isinstance(v, ast.Call) and A.dotted(v.func) == "self._op" and len(v.args) == 2 and not v.keywords
-        if ok:
-            a0 = resolve_local(v.args[0], alias)
-            ok = is_mk_value(a0) and A.self_attr(resolve_local(a0.args[0], alias)) == "_arg"
-            st = v.args[1]
-            ok = ok and isinstance(st, ast.Starred)
-            if ok:
-                g = resolve_local(st.value, alias)
-                ok = isinstance(g, (ast.GeneratorExp, ast.ListComp)) and len(g.generators) == 1 and not g.generators[0].ifs \
-                    and A.self_attr(g.generators[0].iter) == "_params" and is_mk_value(g.elt) \
-                    and [A.dotted(g.elt.args[0])] == A.target_names(g.generators[0].target)
-        facts = A.src(v)
-    col.add(rule, "BuiltinRef._get_value#applies-op", ok, cx.loc(cx.fn),
+    sx = rm.sx("BuiltinRef", "_get_value")
+    rets = _main_returns(rm, "BuiltinRef", "_get_value")
+    ok, facts = len(rets) >= 1, ""
+    for ev, v, c in rets:
+        facts = S.show(v)
+        good = S.is_call_of(v, S.sattr("_op")) and len(v[2]) == 2 and not v[3] and unmk(v[2][0]) == S.sattr("_arg")
+        if good:
+            st = v[2][1]
+            good = st[:1] == ("uop",) and st[1] == "*"
+            if good:
+                g = st[2]
+                if S.is_call_of(g) and g[1] in (("glob", "tuple"), ("glob", "list")) and len(g[2]) == 1:
+                    g = g[2][0]
+                good = g[:1] == ("acc",) and len(g[2]) == 1 and g[2][0][0] == "one" and not g[2][0][1] and \
+                    unmk(g[2][0][2]) == ("elem", S.sattr("_params"))
+        ok = ok and good
+    col.add(rule, "BuiltinRef._get_value#applies-op", ok, sx.loc(sx.fn),
             "BuiltinRef evaluates to _op(_mk_value(_arg), *(_mk_value(p) for p in _params)) -- every parameter, in order", facts)
-    rc = [r for r in ref_classes(repo) if r.name == "BuiltinRef"][0]
-    col.add(rule, "BuiltinRef.__cinit__#fields", [rc.field_of_param(p) for p in A.params(rc.cinits()[0][1])[1:]] == ["_arg", "_op", "_params"],
-            rc.c.module.loc(rc.c.node), "BuiltinRef(arg, op, params) stores them as _arg, _op, _params", str(rc.param_field()))
-    dfl = A.param_defaults(rc.cinits()[0][1])
-    col.add(rule, "BuiltinRef.__cinit__#params-default", "params" in dfl and A.src(dfl["params"]) == "()", rc.c.module.loc(rc.c.node),
-            "BuiltinRef's params default to the empty tuple (no extra argument is passed to the builtin)", A.src(dfl.get("params")))
+    pf = rm.param_fields("BuiltinRef").get("BuiltinRef", {})
+    col.add(rule, "BuiltinRef.__cinit__#fields", [pf.get(i) for i in range(3)] == ["_arg", "_op", "_params"],
+            rm.cls("BuiltinRef").module.loc(rm.cls("BuiltinRef").node), "BuiltinRef(arg, op, params) stores them as _arg, _op, _params", str(pf))
+    dfl = A.param_defaults(rm.cls("BuiltinRef").methods["__cinit__"]) if rm.own("BuiltinRef", "__cinit__") else {}
+    pname = [t[2] for t in rm.cinits("BuiltinRef")[0][1].sym.params.values() if t[:1] == ("param",) and t[1] == 2]
+    col.add(rule, "BuiltinRef.__cinit__#params-default", bool(pname) and pname[0] in dfl and A.src(dfl[pname[0]]) == "()",
+            rm.cls("BuiltinRef").module.loc(rm.cls("BuiltinRef").node),
+            "BuiltinRef's params default to the empty tuple (no extra argument is passed to the builtin)", str({k: A.src(v) for k, v in dfl.items()}))
 
 
-def _inplace(col, rule="C04.R4"):
+EXPR = S.sattr("_expr")
+CUR = S.mcall(S.SELF, "_get_value")
+
+
+def _expr_present(c) -> bool:
+    return c == EXPR or c == ("cmp", "is not", EXPR, ("const", "None"))
+
+
+def _expr_absent(c) -> bool:
+    return c == ("uop", "not", EXPR) or c == ("cmp", "is", EXPR, ("const", "None"))
+
+
+def inplace_rules(col, rule="C04.R4"):
     repo = col.repo
+    rm = model(col)
     mr = repo.cls("MutableRef")
     for fwd, (op, tok, _, ip) in PD.BINARY.items():
         q = f"MutableRef.{ip}"
@@ -258,196 +280,203 @@ def _inplace(col, rule="C04.R4"):
                      f"MutableRef defines {ip} (otherwise `ref {tok}= x` falls back to {fwd} and registers a self-referential expression)",
                      "missing")
             continue
-        cx = FnCtx(mr.module, mr, mr.methods[ip])
-        other = A.params(cx.fn)[1]
-        rets = [n for n in cx.cfg.nodes.values() if n.kind == "stmt" and isinstance(n.ast, ast.Return)]
-        kinds = {}
-        facts = []
+        sx = rm.sx("MutableRef", ip)
+        other = sx.P(0)
+        rets = sx.of_kind("return")
+        lefts, facts = set(), []
         for r in rets:
-            v = r.ast.value
-            if isinstance(v, ast.BinOp) and type(v.op) is op and A.dotted(v.right) == other:
-                left = cx.resolve(v.left, r.id)
-                gs = [g for g in cx.cfg.guards(r.id)]
-                if A.self_attr(left) == "_expr":
-                    # taken when the expression exists
-                    g_ok = len(gs) == 1 and ((gs[0].kind == "T" and _is_expr_present_test(cx, gs[0], r.id)) or
-                                             (gs[0].kind == "F" and _is_expr_absent_test(cx, gs[0], r.id)))
-                    kinds["expr"] = g_ok
-                elif isinstance(left, ast.Call) and is_self_call(left, "_get_value") and not left.args:
-                    g_ok = len(gs) == 1 and ((gs[0].kind == "F" and _is_expr_present_test(cx, gs[0], r.id)) or
-                                             (gs[0].kind == "T" and _is_expr_absent_test(cx, gs[0], r.id)))
-                    kinds["value"] = g_ok
-                else:
-                    facts.append(f"left operand {A.src(left)}")
-            else:
-                facts.append(f"returns {A.src(v)}")
-        ok = kinds.get("expr") is True and kinds.get("value") is True and not facts and len(rets) == 2
-        col.add(rule, f"{q}#old-expr-or-old-value-{tok}-other", ok, cx.loc(cx.fn),
+            conds = sx.conds(r.nid)
+            for a in S.alts(r.value):
+                if not (a[:1] == ("op",) and a[1] == tok and a[3] == other):
+                    facts.append(f"returns {S.show(a)}")
+                    continue
+                for l in S.alts(a[2]):
+                    if l == EXPR:
+                        lefts.add("expr")
+                        if any(_expr_absent(c) for c in conds):
+                            facts.append("the expression form is returned when there is no expression")
+                    elif l == CUR:
+                        lefts.add("value")
+                        if any(_expr_present(c) for c in conds):
+                            facts.append("the value form is returned although there is an expression")
+                    else:
+                        facts.append(f"left operand {S.show(l)}")
+            # separate returns must be told apart by the presence of the expression
+            if len(S.alts(r.value)) == 1 and r.value[:1] == ("op",) and len(S.alts(r.value[2])) == 1:
+                if r.value[2] == EXPR and not any(_expr_present(c) for c in conds):
+                    facts.append("the expression form is not guarded by the presence of an expression")
+                if r.value[2] == CUR and not any(_expr_absent(c) for c in conds):
+                    facts.append("the value form is not guarded by the absence of an expression")
+        ok = lefts == {"expr", "value"} and not facts
+        col.add(rule, f"{q}#old-expr-or-old-value-{tok}-other", ok, sx.loc(sx.fn),
                 f"{ip} returns (current expression {tok} other) when the location has an expression, else (current value {tok} other)",
-                "; ".join(facts) or str(kinds))
-        col.add(rule, f"{q}#every-path-returns", cx.cfg.must_pass(cx.cfg.ENTRY, cx.cfg.EXIT, [r.id for r in rets]), cx.loc(cx.fn),
+                "; ".join(facts) or str(sorted(lefts)))
+        col.add(rule, f"{q}#every-path-returns", sx.cfg.must_pass(sx.cfg.ENTRY, sx.cfg.EXIT, [r.nid for r in rets]), sx.loc(sx.fn),
                 "every path returns one of the two forms", "")
-
-
-def _is_expr_present_test(cx, g, at):
-    t = g.ast
-    e = cx.resolve(t, g.of) if isinstance(t, ast.Name) else t
-    if A.self_attr(e) == "_expr":
-        return True
-    p = A.compare_parts(t)
-    if p and isinstance(p[1], ast.IsNot) and A.is_none(p[2]):
-        e = cx.resolve(p[0], g.of)
-        return A.self_attr(e) == "_expr"
-    return False
-
-
-def _is_expr_absent_test(cx, g, at):
-    t = g.ast
-    p = A.compare_parts(t)
-    if p and isinstance(p[1], ast.Is) and A.is_none(p[2]):
-        return A.self_attr(cx.resolve(p[0], g.of)) == "_expr"
-    if isinstance(t, ast.UnaryOp) and isinstance(t.op, ast.Not):
-        return A.self_attr(cx.resolve(t.operand, g.of)) == "_expr"
-    return False
+    # the current expression of a location is the definition registered under this very reference
+    sx = rm.sx("MutableRef", "_expr")
+    if sx is None:
+        raise AnalysisError("MutableRef._expr vanished")
+    tasks = ("attr", S.sattr("_manager"), "tasks")
+    lookups = (("sub", tasks, S.SELF), S.mcall(tasks, "get", S.SELF), S.mcall(tasks, "get", S.SELF, ("const", "None")))
+    ok, facts, n = True, [], 0
+    for r in sx.of_kind("return"):
+        for a in S.alts(r.value):
+            if a == ("const", "None"):
+                continue
+            n += 1
+            if not (a[:1] == ("attr",) and a[2] == "expr" and a[1] in lookups):
+                ok = False
+                facts.append(f"returns {S.show(a)}")
+    col.add(rule, "MutableRef._expr#definition-of-this-location", ok and n >= 1, sx.loc(sx.fn),
+            "`_expr` is the expression of the task registered under this very reference (manager.tasks[self]), not of a task that "
+            "merely writes it (an element's definition is not the container's)", "; ".join(facts))
 
 
 def _zero_division(col, rule="C04.R5"):
-    repo = col.repo
+    rm = model(col)
     want = {"TruedivExpr", "FloordivExpr", "ModExpr"}
-    for rc in ref_classes(repo):
-        if "_get_value" not in rc.c.methods:
+    nan = (S.fcall("float", ("const", repr("nan"))), ("attr", ("glob", "math"), "nan"), ("attr", ("glob", "np"), "nan"))
+    for c in rm.classes:
+        if "_get_value" not in c.methods:
             continue
-        fn = rc.c.methods["_get_value"]
+        sx = rm.sx(c.name, "_get_value")
+        fn = sx.fn
         tries = [n for n in A.walk(fn) if isinstance(n, ast.Try)]
-        q = f"{rc.name}._get_value"
-        if rc.name in want:
-            ok = len(tries) == 1 and len(tries[0].handlers) == 1 and A.dotted(tries[0].handlers[0].type) == "ZeroDivisionError" \
-                and len(tries[0].handlers[0].body) == 1 and isinstance(tries[0].handlers[0].body[0], ast.Return) \
-                and A.src(tries[0].handlers[0].body[0].value) in ("float('nan')", "math.nan") and not tries[0].finalbody and not tries[0].orelse
-            col.add(rule, f"{q}#zero-division-gives-nan", ok, rc.c.module.loc(fn),
-                    "division/modulo by zero yields NaN: exactly ZeroDivisionError is caught and float('nan') returned", "")
+        q = f"{c.name}._get_value"
+        if c.name in want:
+            hs = [h for t in tries for h in t.handlers]
+            types_ok = len(hs) == 1 and A.dotted(hs[0].type) == "ZeroDivisionError"
+            hret = [v for ev, v, cds, h in rm.returns(c.name, "_get_value") if h]
+            ok = len(tries) == 1 and types_ok and len(hret) == 1 and hret[0] in nan and not tries[0].finalbody
+            col.add(rule, f"{q}#zero-division-gives-nan", ok, sx.loc(fn),
+                    "division/modulo by zero yields NaN: exactly ZeroDivisionError is caught and float('nan') returned",
+                    f"handlers {[A.src(h.type) for h in hs]} returning {[S.show(v) for v in hret]}")
         else:
-            col.add(rule, f"{q}#no-handler", not tries, rc.c.module.loc(tries[0] if tries else fn),
+            col.add(rule, f"{q}#no-handler", not tries, c.module.loc(tries[0] if tries else fn),
                     "no other node class catches exceptions while evaluating (values that make Python raise must raise)",
                     f"handlers: {[A.src(h.type) for t in tries for h in t.handlers]}")
 
 
 def _leaves(col, rule="C04.R6"):
     repo = col.repo
+    rm = model(col)
     # _mk_value
-    cx = fnctx(repo, "BaseRef", "_mk_value")
-    vp = A.params(cx.fn)[0]
-    rets = [n for n in cx.cfg.nodes.values() if n.kind == "stmt" and isinstance(n.ast, ast.Return)]
-    ok = len(rets) == 2
-    for r in rets:
-        v = r.ast.value
-        gs = cx.cfg.guards(r.id)
-        isref = lambda t: isinstance(t, ast.Call) and A.call_name(t) in ("isinstance",) and len(t.args) == 2 and A.dotted(t.args[0]) == vp \
-            and A.dotted(t.args[1]) == "BaseRef"
-        if isinstance(v, ast.Call) and is_method_call(v, "_get_value", vp) and not v.args:
-            ok = ok and len(gs) == 1 and gs[0].kind == "T" and isref(gs[0].ast)
-        elif A.dotted(v) == vp:
-            ok = ok and len(gs) == 1 and gs[0].kind == "F" and isref(gs[0].ast)
-        else:
-            ok = False
-    col.add(rule, "BaseRef._mk_value#evaluate-iff-ref", ok, cx.loc(cx.fn),
-            "_mk_value returns value._get_value() exactly when value is a BaseRef and the value itself otherwise", "")
-    for cls, kind in (("AttrRef", "attr"), ("ItemRef", "item")):
-        for meth in ("_get_value", "_set_value"):
-            cx = fnctx(repo, cls, meth)
-            alias = _local_alias(cx.fn)
-
-            def fld(e):
-                e = resolve_local(e, alias)
-                return A.self_attr(resolve_local(e.args[0], alias)) if is_mk_value(e) else None
-            ok = False
-            facts = ""
-            if meth == "_get_value":
-                rets = [n for n in A.walk(cx.fn) if isinstance(n, ast.Return)]
-                if len(rets) == 1:
-                    v = rets[0].value
-                    facts = A.src(v)
-                    if kind == "attr":
-                        ok = isinstance(v, ast.Call) and A.call_name(v) == "getattr" and len(v.args) == 2 and \
-                            [fld(a) for a in v.args] == ["_owner", "_key"]
-                    else:
-                        ok = isinstance(v, ast.Subscript) and fld(v.value) == "_owner" and fld(v.slice) == "_key"
+    sx = rm.sx("BaseRef", "_mk_value")
+    vals = [t for t in sx.sym.params.values() if t[:1] == ("param",)]
+    if len(vals) != 1:
+        raise AnalysisError("BaseRef._mk_value: expected one parameter")
+    vp = vals[0]
+    ok, facts = True, []
+    seen = set()
+    for r in sx.of_kind("return"):
+        conds = sx.conds(r.nid)
+        for a in S.alts(r.value):
+            if a == S.mcall(vp, "_get_value"):
+                seen.add("eval")
+                if not any(is_ref_test(c, vp) for c in conds) and len(S.alts(r.value)) == 1:
+                    ok = False
+                    facts.append("evaluates without the reference test")
+            elif a == vp:
+                seen.add("raw")
+                if any(is_ref_test(c, vp) for c in conds):
+                    ok = False
+                    facts.append("returns a reference unevaluated")
             else:
-                vp = A.params(cx.fn)[1]
-                stmts = [s for s in A.strip_docstring(cx.fn.body) if not isinstance(s, ast.Assign) or not isinstance(s.targets[0], ast.Name)]
-                if len(stmts) == 1:
-                    s = stmts[0]
-                    facts = A.src(s)
-                    if kind == "attr":
-                        ok = isinstance(s, ast.Expr) and isinstance(s.value, ast.Call) and A.call_name(s.value) == "setattr" and \
-                            len(s.value.args) == 3 and [fld(a) for a in s.value.args[:2]] == ["_owner", "_key"] and A.dotted(s.value.args[2]) == vp
-                    else:
-                        ok = isinstance(s, ast.Assign) and isinstance(s.targets[0], ast.Subscript) and fld(s.targets[0].value) == "_owner" \
-                            and fld(s.targets[0].slice) == "_key" and A.dotted(s.value) == vp
-            col.add(rule, f"{cls}.{meth}#{kind}-access", ok, cx.loc(cx.fn),
-                    f"{cls}.{meth} {'reads' if meth == '_get_value' else 'writes'} the {kind} `_mk_value(_key)` of `_mk_value(_owner)` "
-                    "(owner and key both evaluated)", facts)
-    cx = fnctx(repo, "Ref", "_get_value")
-    v = _ret_expr(cx.fn)
-    col.add(rule, "Ref._get_value#container", is_mk_value(v) and A.self_attr(v.args[0]) == "_owner", cx.loc(cx.fn),
-            "a container ref evaluates to its container", A.src(v))
-    cx = fnctx(repo, "LiteralExpr", "_get_value")
-    v = _ret_expr(cx.fn)
-    col.add(rule, "LiteralExpr._get_value#literal", A.self_attr(v) == "_arg", cx.loc(cx.fn), "a literal evaluates to itself", A.src(v))
-    # navigation
-    base = repo.cls("BaseRef")
+                ok = False
+                facts.append(f"returns {S.show(a)}")
+    col.add(rule, "BaseRef._mk_value#evaluate-iff-ref", ok and seen == {"eval", "raw"}, sx.loc(sx.fn),
+            "_mk_value returns value._get_value() exactly when value is a BaseRef and the value itself otherwise", "; ".join(facts))
+    owner, key = S.sattr("_owner"), S.sattr("_key")
+    for cls, kind in (("AttrRef", "attr"), ("ItemRef", "item")):
+        sx = rm.sx(cls, "_get_value")
+        rets = sx.of_kind("return")
+        ok = bool(rets)
+        for r in rets:
+            v = r.value
+            if kind == "attr":
+                ok = ok and S.is_call_of(v, ("glob", "getattr")) and len(v[2]) == 2 and unmk(v[2][0]) == owner and unmk(v[2][1]) == key
+            else:
+                ok = ok and v[:1] == ("sub",) and unmk(v[1]) == owner and unmk(v[2]) == key
+        col.add(rule, f"{cls}._get_value#{kind}-access", ok, sx.loc(sx.fn),
+                f"{cls}._get_value reads the {kind} `_mk_value(_key)` of `_mk_value(_owner)` (owner and key both evaluated)",
+                S.show(rets[0].value) if rets else "")
+        sx = rm.sx(cls, "_set_value")
+        val = sx.P(0)
+        if kind == "attr":
+            evs = [ev for ev, m in sx.calls_some(S.fcall("setattr", S.V("o"), S.V("k"), S.V("v")))
+                   if unmk(m["o"]) == owner and unmk(m["k"]) == key and m["v"] == val]
+            others = [ev for ev, m in sx.calls_some(S.fcall("setattr", S.V("o"), S.V("k"), S.V("v"))) if ev not in evs]
+        else:
+            st = sx.of_kind("store")
+            evs = [e for e in st if e.target[:1] == ("sub",) and unmk(e.target[1]) == owner and unmk(e.target[2]) == key and e.value == val]
+            others = [e for e in st if e not in evs]
+        ok = bool(evs) and not others and sx.cfg.must_pass(sx.cfg.ENTRY, sx.cfg.EXIT, [e.nid for e in evs])
+        col.add(rule, f"{cls}._set_value#{kind}-access", ok, sx.loc(sx.fn),
+                f"{cls}._set_value writes the {kind} `_mk_value(_key)` of `_mk_value(_owner)` (owner and key both evaluated) on every path",
+                f"{len(evs)} matching writes, {len(others)} other")
+    rets = rm.returns("Ref", "_get_value")
+    col.add(rule, "Ref._get_value#container", bool(rets) and all(unmk(v) == owner for _, v, _, _ in rets), rm.sx("Ref", "_get_value").loc(rm.sx("Ref", "_get_value").fn),
+            "a container ref evaluates to its container", S.show(rets[0][1]) if rets else "")
+    rets = rm.returns("LiteralExpr", "_get_value")
+    col.add(rule, "LiteralExpr._get_value#literal", bool(rets) and all(v == S.sattr("_arg") for _, v, _, _ in rets),
+            rm.sx("LiteralExpr", "_get_value").loc(rm.sx("LiteralExpr", "_get_value").fn), "a literal evaluates to itself", "")
     for meth, cls_, mod in (("__getitem__", "ItemRef", "BaseRef"), ("__getattr__", "AttrRef", "BaseRef"), ("__getattr__", "ItemRef", "ObjectAttrRef")):
-        cx = fnctx(repo, mod, meth)
-        kp = A.params(cx.fn)[1]
-        rets = [n.value for n in A.walk(cx.fn) if isinstance(n, ast.Return)]
-        ok = len(rets) == 1 and isinstance(rets[0], ast.Call) and A.call_name(rets[0]) == cls_ and \
-            [A.dotted(a) for a in rets[0].args] == ["self", kp, "self._manager"]
-        col.add(rule, f"{mod}.{meth}#navigation", ok, cx.loc(cx.fn), f"{mod}.{meth} builds {cls_}(self, key, self._manager)",
-                A.src(rets[0]) if rets else "")
+        sx = rm.sx(mod, meth)
+        kp = sx.P(0)
+        rets = sx.of_kind("return")
+        ok = bool(rets) and all(r.value == S.fcall(cls_, S.SELF, kp, S.sattr("_manager")) for r in rets)
+        col.add(rule, f"{mod}.{meth}#navigation", ok, sx.loc(sx.fn), f"{mod}.{meth} builds {cls_}(self, key, self._manager)",
+                S.show(rets[0].value) if rets else "")
 
 
 def _calls(col, rule="C04.R7"):
-    repo = col.repo
-    cx = fnctx(repo, "CallRef", "_get_value")
-    alias = _local_alias(cx.fn)
-    rets = [n for n in A.walk(cx.fn) if isinstance(n, ast.Return)]
-    ok = len(rets) == 1
-    facts = ""
-    if ok:
-        v = resolve_local(rets[0].value, alias)
-        facts = A.src(v)
-        ok = isinstance(v, ast.Call) and len(v.args) == 1 and isinstance(v.args[0], ast.Starred) and len(v.keywords) == 1 and v.keywords[0].arg is None
-        if ok:
-            f = resolve_local(v.func, alias)
-            okf = is_mk_value(f) and A.self_attr(f.args[0]) == "_func"
-            a = resolve_local(v.args[0].value, alias)
-            oka = isinstance(a, (ast.ListComp, ast.GeneratorExp)) and len(a.generators) == 1 and not a.generators[0].ifs and \
-                A.self_attr(a.generators[0].iter) == "_args" and is_mk_value(a.elt) and [A.dotted(a.elt.args[0])] == A.target_names(a.generators[0].target)
-            k = resolve_local(v.keywords[0].value, alias)
-            okk = isinstance(k, ast.DictComp) and len(k.generators) == 1 and not k.generators[0].ifs and A.self_attr(k.generators[0].iter) == "_kwargs" \
-                and len(A.target_names(k.generators[0].target)) == 2 and A.dotted(k.key) == A.target_names(k.generators[0].target)[0] \
-                and is_mk_value(k.value) and A.dotted(k.value.args[0]) == A.target_names(k.generators[0].target)[1]
-            col.add(rule, "CallRef._get_value#function-evaluated", okf, cx.loc(cx.fn), "the called function is evaluated through _mk_value", A.src(f))
-            col.add(rule, "CallRef._get_value#positional-evaluated", oka, cx.loc(cx.fn), "every positional argument is evaluated, in order", A.src(a))
-            col.add(rule, "CallRef._get_value#keywords-evaluated", okk, cx.loc(cx.fn), "every keyword argument is evaluated under its own name", A.src(k))
-    col.add(rule, "CallRef._get_value#applies", ok, cx.loc(cx.fn), "CallRef evaluates to func(*args, **kwargs)", facts)
-    cx = fnctx(repo, "BaseRef", "__call__")
-    v = _ret_expr(cx.fn)
-    a = cx.fn.args
-    ok = isinstance(v, ast.Call) and A.call_name(v) == "CallRef" and a.vararg and a.kwarg and \
-        [A.dotted(x) for x in v.args] == ["self", a.vararg.arg, a.kwarg.arg]
-    col.add(rule, "BaseRef.__call__#builds-callref", bool(ok), cx.loc(cx.fn), "calling a ref builds CallRef(self, args, kwargs)", A.src(v))
-    # CallRef ctor: kwargs normalised to items in order
-    rc = [r for r in ref_classes(repo) if r.name == "CallRef"][0]
-    col.add(rule, "CallRef.__cinit__#fields", [rc.field_of_param(p) for p in A.params(rc.cinits()[0][1])[1:]] == ["_func", "_args", "_kwargs"],
-            rc.c.module.loc(rc.c.node), "CallRef(func, args, kwargs) stores them as _func, _args, _kwargs", str(rc.param_field()))
+    rm = model(col)
+    sx = rm.sx("CallRef", "_get_value")
+    rets = _main_returns(rm, "CallRef", "_get_value")
+    if not rets:
+        raise AnalysisError("CallRef._get_value: no return")
+    for ev, v, c in rets:
+        okf = oka = okk = False
+        if S.is_call_of(v):
+            okf = unmk(v[1]) == S.sattr("_func")
+            if len(v[2]) == 1 and v[2][0][:1] == ("uop",) and v[2][0][1] == "*":
+                g = v[2][0][2]
+                if S.is_call_of(g) and g[1] in (("glob", "tuple"), ("glob", "list")) and len(g[2]) == 1:
+                    g = g[2][0]
+                oka = g[:1] == ("acc",) and len(g[2]) == 1 and g[2][0][0] == "one" and not g[2][0][1] and \
+                    unmk(g[2][0][2]) == ("elem", S.sattr("_args"))
+            kw = dict(v[3]).get("**")
+            if kw is not None and kw[:1] == ("acc",) and kw[1] == "dict" and len(kw[2]) == 1 and kw[2][0][0] == "kv" and not kw[2][0][1]:
+                el = ("elem", S.sattr("_kwargs"))
+                okk = kw[2][0][2] == ("item", el, 0) and unmk(kw[2][0][3]) == ("item", el, 1)
+        col.add(rule, "CallRef._get_value#function-evaluated", okf, sx.loc(ev), "the called function is evaluated through _mk_value", S.show(v)[:120])
+        col.add(rule, "CallRef._get_value#positional-evaluated", oka, sx.loc(ev), "every positional argument is evaluated, in order", S.show(v)[:120])
+        col.add(rule, "CallRef._get_value#keywords-evaluated", okk, sx.loc(ev), "every keyword argument is evaluated under its own name", S.show(v)[:120])
+    sx = rm.sx("BaseRef", "__call__")
+    ps = sorted((t for t in sx.sym.params.values() if t[:1] == ("param",)), key=lambda t: t[1])
+    rets = sx.of_kind("return")
+    ok = len(ps) == 2 and ps[0][2].startswith("*") and ps[1][2].startswith("**") and bool(rets) and \
+        all(r.value == S.fcall("CallRef", S.SELF, ps[0], ps[1]) for r in rets)
+    col.add(rule, "BaseRef.__call__#builds-callref", ok, sx.loc(sx.fn), "calling a ref builds CallRef(self, args, kwargs)",
+            S.show(rets[0].value) if rets else "")
+    fs = rm.field_stores("CallRef")
+    k_sx = rm.cinits("CallRef")[0][1]
+    p = [t for t in sorted((t for t in k_sx.sym.params.values() if t[:1] == ("param",)), key=lambda t: t[1])]
+    allowed_kw = (S.fcall("tuple", S.mcall(p[2], "items")), S.fcall("tuple", p[2])) if len(p) == 3 else ()
+    ok = len(p) == 3 and all(v == p[0] for _, v, _, _, _ in fs.get("_func", [])) and all(v == p[1] for _, v, _, _, _ in fs.get("_args", [])) \
+        and bool(fs.get("_kwargs")) and all(a in allowed_kw for _, v, _, _, _ in fs["_kwargs"] for a in S.instances(v)) \
+        and bool(fs.get("_func")) and bool(fs.get("_args"))
+    col.add(rule, "CallRef.__cinit__#fields", ok, k_sx.loc(k_sx.fn),
+            "CallRef(func, args, kwargs) stores them as _func, _args, _kwargs (keyword arguments as a tuple of (name, value) pairs, in order)",
+            str({f: [S.show(v) for _, v, _, _, _ in l] for f, l in fs.items() if f != "_hash"}))
 
 
 def check(col: Collector):
     _binary(col)
     _unary(col)
     _builtins(col)
-    _inplace(col)
+    inplace_rules(col)
     _zero_division(col)
     _leaves(col)
     _calls(col)
